@@ -43,6 +43,16 @@ Consume(e) ==
   \/ e.ev = "add_records"  /\ AddRecords(e.s, e.n)
   \/ e.ev = "query"        /\ QueryTop(e.s, e.kk, e.thr)
   \/ e.ev = "getitem"      /\ GetItem(e.s, e.k)
+  \* an observed sketch whose true stream is known (result of a real spawned parallel_add, whose
+  \* merge order is not observable): the invariants are evaluated on the observed state
+  \/ e.ev = "observe"      /\ sk' = [sk EXCEPT ![e.s] = e.state]
+                           /\ truth' = [truth EXCEPT ![e.s] = [k \in DOMAIN env.col |->
+                                 IF \E i \in 1..Len(e.truth) : e.truth[i][1] = k
+                                 THEN e.truth[CHOOSE i \in 1..Len(e.truth) : e.truth[i][1] = k][2] ELSE NZero]]
+                           /\ sat' = [sat EXCEPT ![e.s] = FALSE]
+                           /\ cache' = [cache EXCEPT ![e.s] = NoCache]
+                           /\ op' = [name |-> "observe", s |-> e.s]
+                           /\ UNCHANGED env
 
 QueryMatches(got, o) ==
   /\ Len(got) = Len(o.out)
@@ -52,7 +62,7 @@ QueryMatches(got, o) ==
         /\ \A j \in 1..Len(got) : j # i => got[j][1] # got[i][1]
 
 Matches(e) ==
-  /\ \A s \in 1..Len(e.post) : sk'[s] = e.post[s]
+  /\ "post" \in DOMAIN e => \A s \in 1..Len(e.post) : sk'[s] = e.post[s]
   /\ e.ev = "query" => QueryMatches(e.out, op')
   /\ e.ev = "getitem" => op'.out = e.out
 
